@@ -430,8 +430,11 @@ func (m *Monitors) afterDeliver(n *RealNode, f *Flight, enc string) {
 				net.c.Nontrivial("c11/viewchange")
 			}
 		case *interfaces.NewViewMessage:
-			// (a member whose contexts of this height were already cancelled by a pending node sync is leaving the height: it validates nothing)
-			if mv >= pre.v && !pre.hasPPAtMV && !interfered && sameHeight && n.AheadUntil <= pre.h {
+			// (a member whose contexts of this height were already cancelled by a pending node sync is leaving the height: it validates nothing;
+			// likewise a member whose election trigger for the NEW_VIEW's view was already handled by the main loop — during an earlier
+			// SPI call — has its contexts below the next view cancelled and is passing that view: the election message is in its queue)
+			passing := n.CancelledH == pre.h && mv < n.CancelledV
+			if mv >= pre.v && !pre.hasPPAtMV && !interfered && sameHeight && n.AheadUntil <= pre.h && !passing {
 				_, has := n.Store.GetPreprepareMessage(x.BlockHeight(), x.View())
 				if uint64(post.View()) != mv || !has {
 					m.viol("C11", "honest-newview-not-adopted", fmt.Sprintf("node %d (view %d) did not adopt the NEW_VIEW of correct leader %x for view %d", n.Idx, pre.v, f.From, mv))
